@@ -114,11 +114,17 @@ type chanHandler struct {
 // nextMessage wait for one message and puts it to the incoming channel
 func (c *wsConn) nextMessage() {
 	c.resetReadDeadline()
-	msgType, r, err := c.conn.NextReader()
+	conn := c.conn
+	msgType, r, err := conn.NextReader()
 	if err != nil {
 		c.errLk.Lock()
 		c.incomingErr = err
 		c.errLk.Unlock()
+		// Nothing can be read from this connection any more (the read deadline
+		// expired, or it broke). Close it, so that a writer that is blocked on
+		// a peer which stopped reading fails too instead of keeping the
+		// connection loop (and with it reconnect and close) stuck for ever.
+		_ = conn.Close()
 		close(c.incoming)
 		return
 	}
